@@ -746,6 +746,11 @@ class ExprMixin:
             return r
         if isinstance(op, ast.Add) and isinstance(a, TupleV) and isinstance(b, TupleV):
             return TupleV(a.items + b.items)
+        if isinstance(op, ast.Mult) and (isinstance(a, TupleV) and isinstance(b, IntV) or isinstance(b, TupleV) and isinstance(a, IntV)):
+            t, n = (a, b) if isinstance(a, TupleV) else (b, a)
+            c = self.store.canon(n.lin)
+            if c.is_const() and len(t.items) * max(c.c, 0) <= 256:
+                return TupleV(list(t.items) * max(c.c, 0))      # (2, 1) * 10
         if isinstance(op, ast.Mod) and isinstance(a, SeqV):
             return self._percent_format(a, b, node)
         if isinstance(a, (UnkV,)) or isinstance(b, (UnkV,)):
